@@ -18,10 +18,13 @@ Specification laws (no engine involved):
   before it stays; conversely a record that succeeds had a text for every bound;
 * `specRecord_fails_at`, `specRun_fails_at`, `specLines_fails_at`, `specBytes_fails_at`.
 
-Runs of the engines (refinement theorem + the law): `readAndCutStr_never_silent`,
-`readAndCutFast_never_silent`, `cutLines_never_silent` / `readAndCutLines_never_silent`
-(buffered `-l`), `fwd_never_silent` (`-l` one line at a time, proved on the model),
-`readAndCutBytes_never_silent`, `stream_never_silent` (`-M`).
+Runs of the engines (refinement theorem + the law): `readAndCutStr_never_silent` (general field
+engine), `cutLines_never_silent` / `readAndCutLines_never_silent` (buffered `-l`),
+`fwd_never_silent` (`-l` one line at a time — proved on the model, its refinement theorem being
+about resolvable requests only), `readAndCutLines_never_silent_status` (whichever `-l` algorithm),
+`readAndCutBytes_never_silent` (`-b`).  The fast lane (`readAndCutFast_never_silent`) and `-M`
+(`stream_never_silent`) are in `Tuc.Props.C13RunsFast` and `Tuc.Props.C13RunsStream`: C02 and C03
+cannot be imported into one file (both declare `Tuc.mem_boundsOnly`).
 -/
 namespace Tuc
 open Tuc.Spec
